@@ -7,17 +7,29 @@ Cell      : one generated proposal configuration (FlowProposal /
             sizes, trained or fresh flow, uniform or non-uniform prior;
             RejectionProposal / AnalyticProposal), driven directly.
 Pool      : populate() is called until N_POINTS pool points are collected
-            (populations pooled, the last one cut in draw order).
+            (populations pooled, the last one cut in draw order; the worst
+            point cycles through a few training points, as it moves in a
+            run).  Every pool point must lie inside the prior bounds and map
+            back inside the contour its population used.
 Reference : brute-force rejection from the prior (exact sampler written
             here) restricted to the contour the proposal used: latent radius
             of the proposal's forward pass <= r * fuzz (radially truncated
             latent priors) and, with truncate_log_q, the density the
             rejection step compared above the threshold it used; one
-            reference point per pool point, population by population.
+            reference point per pool point, contour by contour.
 Decision  : two-sample chi-square on a 2-D grid + per-dimension two-sample
             Kolmogorov-Smirnov (uninformed proposals: one-sample versions
             against the analytic prior); violation iff p * TEST_BUDGET <
             P_THRESHOLD.
+Finding   : weights are normalised by an empirical maximum (of the batch, or
+            of the draws accumulated so far).  A failing cell is attributed
+            to it from quantities recorded passively in that cell: mean
+            number of accepted draws per batch < K_BATCH, or a spread of the
+            per-batch (per-population) maximum log-weight > SPREAD among
+            batches (populations) that share a contour.
+
+Interface : run_cells(ctx) -> Outcome, replay_cell(ctx, case) -> violations,
+            health_cells(ctx, stats) -> problems, RULE_B, ASSUMPTIONS_B.
 """
 import logging
 import math
@@ -27,8 +39,10 @@ import tempfile
 import numpy as np
 from hypothesis import strategies as st
 
-from .core import Ctx, HarnessError, Outcome, Violation, jhash
+from .core import HarnessError, Outcome, Violation, jhash
 from .par import run_shards
+
+READY = True  # vf/checks/c09.py runs the cells only when this is set
 
 N_POINTS = 12000  # pool points and reference points per cell, both tiers
 P_THRESHOLD = 1e-9  # family-wise false-alarm rate of a whole run
@@ -49,50 +63,73 @@ KEY_F13_SPREAD = f"populate:per-batch-max:log-max-spread>{SPREAD}"
 KEY_ACC_SPREAD = f"populate:accumulated-max:log-max-spread>{SPREAD}"
 
 RULE_B = (
-    "(B) distribution cells: Hypothesis-generated proposal configurations "
-    "(FlowProposal / AugmentedFlowProposal: latent prior truncated_gaussian "
-    "/ gaussian / uniform_nsphere / uniform_nball / flow, constant volume "
-    "mode + volume fraction or radius from a worst point / fixed radius "
-    "with fuzz or expansion fraction, accumulate_weights, truncate_log_q, "
-    "reparameterisation zscore / rescaletobounds / logit / mixed, poolsize, "
-    "drawsize, flow trained 5-20 epochs on a Gaussian blob or on prior "
-    "samples or fresh, uniform (gauss_uniform) and truncated-normal "
-    "(gauss_gauss) prior; RejectionProposal / AnalyticProposal), all seeds "
-    f"drawn by Hypothesis; each cell: {N_POINTS} pool points vs {N_POINTS} "
-    "brute-force prior-in-contour points. Non-trivial cell: trained flow "
-    "and population acceptance < 1."
+    "(B) distribution cells: proposal configurations drawn by Hypothesis "
+    "inside 25 strata (FlowProposal / AugmentedFlowProposal: latent prior "
+    "truncated_gaussian / gaussian / uniform_nsphere / uniform_nball / "
+    "flow, constant volume mode + volume fraction, or radius from a moving "
+    "worst point / all training points / fixed radius with fuzz or "
+    "expansion fraction, min/max radius, accumulate_weights, "
+    "truncate_log_q, reparameterisation zscore / rescaletobounds / logit / "
+    "mixed, poolsize 50-5000, drawsize 200-20000, RealNVP / NSF / MAF "
+    "trained 5-20 epochs on a Gaussian blob (central, at the edge of the "
+    "box, wide) or on prior samples, or fresh, uniform (gauss_uniform) and "
+    "truncated-normal (gauss_gauss) priors, log_prior with and without its "
+    "own bounds mask, 1-2 augment dimensions; RejectionProposal / "
+    "AnalyticProposal with poolsize 100-5000) plus 7 fixed cells (minimal "
+    "reproductions of the empirical-maximum finding and their controls); "
+    "all seeds drawn by Hypothesis; "
+    f"each cell: {N_POINTS} pool points vs {N_POINTS} brute-force "
+    "prior-in-contour points; evaluations = pool points examined. "
+    "Non-trivial cell: trained flow and population acceptance < 1; "
+    "distinct by hash of the cell."
 )
 ASSUMPTIONS_B = [
     f"resolution of the statistical decision: {N_POINTS} pool points "
     f"against {N_POINTS} reference points in both tiers, violation iff "
     f"p < {P_THRESHOLD:g}/{TEST_BUDGET} (Bonferroni over at most "
-    f"{TEST_BUDGET} tests per run, asserted); a Kolmogorov distance below "
-    "about 0.049 or a chi-square non-centrality below about 150 passes",
+    f"{TEST_BUDGET} tests per run, asserted in health); a Kolmogorov "
+    "distance below about 0.048 or a chi-square non-centrality below about "
+    "145 (140 bins) passes",
     f"chi-square binning rule: {GRID_K} x {GRID_K} grid whose edges are the "
     "pooled (pool + reference) marginal quantiles of each dimension, cells "
     f"with fewer than {MIN_BIN} pooled points merged into one rest bin (the "
     "rest bin joins the smallest other bin if it is itself that sparse); "
-    "the bins depend on the two samples only through their union, so the "
-    "test is exact under exchangeability; uninformed proposals: 10 x 10 "
-    "grid of analytic prior deciles (expected count 120)",
+    "the bins depend on the two samples only through their union; "
+    "uninformed proposals: 10 x 10 grid of analytic prior deciles (expected "
+    "count 120), one-sample tests against the closed-form prior CDF",
     "contour membership of a reference point is decided with the proposal's "
     "own forward pass (its consistency with the backward pass is C08); the "
     "float32 round-trip error (1e-6) moves a fraction of about 1e-6 of the "
-    "points across the contour edge, far below the resolution",
+    "points across the contour edge, far below the resolution; r, fuzz and "
+    "the log-q threshold are the values the population itself used (read "
+    "back / recorded passively), one contour per distinct value",
+    f"pool points mapped back: relative slack {SLACK:g} on the latent "
+    "radius and on the log-q threshold (float32), and a violation only if "
+    f"more than a fraction {MAX_OUTSIDE:g} of the pool lies outside",
     "AugmentedFlowProposal: the reference draws the augment parameters from "
     "their N(0,1) prior with the harness generator and only the model "
     "parameters are compared (marginal over the augment dimensions); "
     "marginalise_augment=True is not generated (Monte-Carlo weights, the "
     "target marginal is not the prior-in-contour marginal by construction)",
     "latent priors 'gaussian' and 'flow' have no contour: the reference is "
-    "the prior on the model bounds; their cells train on prior samples or "
-    "on a wide blob (what the first trainings of a run see) as well as on "
-    "narrow blobs",
+    "the prior on the model bounds (restricted by the log-q threshold when "
+    "truncate_log_q is set)",
+    "lax-prior cells: the model's log_prior does not mask the bounds (the "
+    "documentation asks users to enforce them there; the proposal also "
+    "drops out-of-bounds draws itself and these cells observe that "
+    "mechanism); the reference is the prior density restricted to the "
+    "model bounds",
     f"a cell that would need more than {MAX_LATENT_DRAWS} latent draws "
     f"({MAX_LATENT_DRAWS_ACC} with accumulate_weights, whose population "
     "loop re-concatenates all draws every batch; such cells use drawsize "
     f">= 2000 for the same reason) or {MAX_REF_DRAWS} reference candidates "
-    "is abandoned and counted inconclusive (bounded by health)",
+    "is abandoned and counted inconclusive (at most 15% of the cells, "
+    "health)",
+    "attribution of a failing cell to the empirical-maximum finding uses "
+    f"only quantities measured in that cell (accepted draws per batch < "
+    f"{K_BATCH}; s.d. of the per-batch / per-population maximum log-weight "
+    f"> {SPREAD} among batches / populations sharing a contour); every "
+    "other failing cell is a new violation",
 ]
 
 
@@ -404,7 +441,6 @@ class _Recorder:
         self.weighted_batches = 0
         self.log_max = []
         self.pop_log_max = []  # per population: maximum over its batches
-        self.exp_acc = 0.0
         self.min_log_q = None
         draw = fp.draw_latent_prior
         weights = fp.compute_weights
@@ -438,7 +474,6 @@ class _Recorder:
                     if self.pop_log_max:
                         self.pop_log_max[-1] = max(self.pop_log_max[-1],
                                                    float(m))
-                    self.exp_acc += float(np.nansum(np.exp(lw - m)))
             return res
 
         fp.draw_latent_prior = draw_latent_prior
@@ -1017,9 +1052,9 @@ TEMPLATES = [
          reparam="logit", prior="nonuniform"),
     dict(proposal="flow", latent_prior=_NB, truncate_log_q=True,
          contour="moderate", state="trained"),
-    dict(proposal="flow", latent_prior="gaussian", train="wide",
+    dict(proposal="flow", latent_prior="gaussian", train="blob",
          truncate_log_q=True, reparam="zscore", lax_prior=False,
-         n_train=100),
+         n_train=100, drawsize=5000),
     dict(proposal="flow", latent_prior="gaussian", train="prior",
          reparam="logit", accumulate_weights=True, state="trained"),
     dict(proposal="flow", latent_prior="flow", train="wide",
@@ -1028,7 +1063,7 @@ TEMPLATES = [
          accumulate_weights=False, truncate_log_q=False),
     dict(proposal="flow", latent_prior=_TG, constant_volume_mode=False,
          contour="beyond", truncate_log_q=True, accumulate_weights=True,
-         state="trained", n_train=100),
+         state="trained", n_train=100, train="blob"),
     dict(proposal="augmented", latent_prior=_TG, constant_volume_mode=True,
          reparam="zscore", state="trained", lax_prior=True, train="edge"),
     dict(proposal="augmented", latent_prior=_TG, constant_volume_mode=False,
@@ -1066,9 +1101,9 @@ ANTICIPATED = [
     dict(_ANT_FLOW, label="F13-control:flow:accumulate_weights",
          accumulate_weights=True, drawsize=2000),
     dict(_ANT_FLOW, label="F13:flow:accumulate_weights:poolsize=10",
-         accumulate_weights=True, drawsize=100, poolsize=10),
+         accumulate_weights=True, drawsize=200, poolsize=10),
     dict(_ANT_FLOW, label="F13-control:flow:accumulate_weights:poolsize=300",
-         accumulate_weights=True, drawsize=100, poolsize=300),
+         accumulate_weights=True, drawsize=2000, poolsize=300),
     dict(kind="dist-cell", proposal="rejection", poolsize=20, seed=5,
          model={"name": "gauss_gauss", "dims": 2, "s_p": 1.0},
          label="F13:rejection:poolsize=20"),
@@ -1153,8 +1188,6 @@ def shard(cases):
         label = case.get("label")
         case = {k: v for k, v in case.items() if k != "label"}
         meas, status = None, "pass"
-        import os, time
-        t0 = time.time()
         try:
             meas = check_cell(case)
         except Violation as v:
@@ -1180,11 +1213,6 @@ def shard(cases):
         agg["cells"] = agg.get("cells", 0) + 1
         if meas:
             agg["tests"] = agg.get("tests", 0) + int(meas.get("tests", 0))
-        if os.environ.get("C09B_TIMING"):
-            print("[cell] %.1fs %s %s draws=%s ref_frac=%s" % (
-                time.time() - t0, status, jhash(case),
-                meas and meas.get("latent_draws"),
-                meas and meas.get("contour_prior_fraction")), flush=True)
         rows[jhash(case)] = ({
             "label": label or "", "status": status,
             "proposal": case["proposal"],
